@@ -5,7 +5,9 @@ import (
 	"os"
 	"runtime"
 	"sync"
+	"syscall"
 	"time"
+	"unsafe"
 
 	"verif/harness/internal/vh"
 )
@@ -22,7 +24,7 @@ const (
 	hardLimit = 25 * time.Second
 	// quadratic-time probes: T(2n)/T(n) must stay below ratioMax (a quadratic routine gives 4) once T(2n) is
 	// above ratioFloor (below it the clock noise dominates), and T(2n) below scaleCap
-	ratioMax   = 5.5
+	ratioMax   = 6.0
 	ratioFloor = 4 * time.Millisecond
 	scaleCap   = 3 * time.Second
 )
@@ -66,6 +68,20 @@ func (w *watchdog) run(onHang func(entry string, replay interface{}, d time.Dura
 	}
 }
 
+// ---------- clock ----------
+// Time budgets and scaling ratios are measured in CPU time of the calling thread
+// (CLOCK_THREAD_CPUTIME_ID; main locks its goroutine to an OS thread), so that a loaded machine
+// (other checks running in parallel) does not turn into false "time" findings.  Hangs are caught by
+// the wall-clock watchdog.
+func cpuNow() time.Duration {
+	var ts syscall.Timespec
+	const clockThreadCPUTimeID = 3
+	if _, _, e := syscall.Syscall(syscall.SYS_CLOCK_GETTIME, clockThreadCPUTimeID, uintptr(unsafe.Pointer(&ts)), 0); e != 0 {
+		return time.Duration(time.Now().UnixNano())
+	}
+	return time.Duration(ts.Sec)*time.Second + time.Duration(ts.Nsec)
+}
+
 // ---------- guarded call ----------
 type outcome struct {
 	panicked bool
@@ -77,9 +93,9 @@ type outcome struct {
 func measure(f func()) outcome {
 	var m0, m1 runtime.MemStats
 	runtime.ReadMemStats(&m0)
-	t0 := time.Now()
+	t0 := cpuNow()
 	p, msg := vh.Catch(f)
-	dt := time.Since(t0)
+	dt := cpuNow() - t0
 	runtime.ReadMemStats(&m1)
 	return outcome{p, msg, dt, m1.TotalAlloc - m0.TotalAlloc}
 }
@@ -154,9 +170,9 @@ func scaleProbe(entry string, n int, reps int, build func(n int) (run func(), re
 			run, r := build(n)
 			rp = r
 			wd.begin(entry, r)
-			t0 := time.Now()
+			t0 := cpuNow()
 			p, msg := vh.Catch(run)
-			d := time.Since(t0)
+			d := cpuNow() - t0
 			wd.end()
 			rep.Count(entry+"/scale", fmt.Sprintf("%s|scale%d", entry, n), true)
 			if p {
@@ -230,7 +246,7 @@ func mutate(r *vh.RNG, b []byte) []byte {
 		case 6: // overwrite 4 bytes with a large little-endian count
 			if len(out) >= 5 {
 				p := r.Intn(len(out) - 4)
-				copy(out[p:], vh.Pick(r, [][]byte{{0xfe, 0xff, 0xff, 0xff, 0xff}, {0xfd, 0xff, 0xff}, {0xff, 0xff, 0xff, 0xff, 0xff}, {0xfe, 0, 0, 0, 1}}))
+				copy(out[p:], vh.Pick(r, [][]byte{{0xfe, 0xff, 0xff, 0xff, 0xff}, {0xfd, 0xff, 0xff}, {0xff, 0xff, 0xff, 0xff, 0xff}, {0xfe, 0x40, 0x42, 0x0f, 0}})) // the last one declares 1,000,000: large, yet keeps the wire decoder's own pre-allocation below ~100 MB
 			}
 		case 7: // append garbage
 			out = append(out, r.Bytes(1+r.Intn(8))...)
